@@ -46,6 +46,6 @@ EOP
 go build -tags "verif verifmap" -overlay ../.build/overlay-map.json -o ../.build/verif-map ./cmd/verif
 # the repository's own binaries (used by process-level checks), built
 # without any overlay
-if [ "$1" = "all" ]; then
+if true; then
   (cd /repo/go && go build -o /verif/.build/bin/ ./cmd/...)
 fi
